@@ -13,9 +13,9 @@ Iso8601/Ext.vos Iso8601/Ext.vok Iso8601/Ext.required_vos: Iso8601/Ext.v Base/GoI
 Generated/Iso8601Gen.vo Generated/Iso8601Gen.glob Generated/Iso8601Gen.v.beautified Generated/Iso8601Gen.required_vo: Generated/Iso8601Gen.v Base/GoInt.vo Iso8601/Ext.vo
 Generated/Iso8601Gen.vio: Generated/Iso8601Gen.v Base/GoInt.vio Iso8601/Ext.vio
 Generated/Iso8601Gen.vos Generated/Iso8601Gen.vok Generated/Iso8601Gen.required_vos: Generated/Iso8601Gen.v Base/GoInt.vos Iso8601/Ext.vos
-Extract/Extract.vo Extract/Extract.glob Extract/Extract.v.beautified Extract/Extract.required_vo: Extract/Extract.v Base/GoInt.vo Iso8601/Ext.vo Generated/Iso8601Gen.vo Iso8601/Spec.vo
-Extract/Extract.vio: Extract/Extract.v Base/GoInt.vio Iso8601/Ext.vio Generated/Iso8601Gen.vio Iso8601/Spec.vio
-Extract/Extract.vos Extract/Extract.vok Extract/Extract.required_vos: Extract/Extract.v Base/GoInt.vos Iso8601/Ext.vos Generated/Iso8601Gen.vos Iso8601/Spec.vos
+Extract/Extract.vo Extract/Extract.glob Extract/Extract.v.beautified Extract/Extract.required_vo: Extract/Extract.v Base/GoInt.vo Iso8601/Ext.vo Generated/Iso8601Gen.vo Iso8601/Spec.vo Generated/AsmAsciiGen.vo Ascii/AsmTotal.vo Generated/AsciiGen.vo Ascii/Spec.vo
+Extract/Extract.vio: Extract/Extract.v Base/GoInt.vio Iso8601/Ext.vio Generated/Iso8601Gen.vio Iso8601/Spec.vio Generated/AsmAsciiGen.vio Ascii/AsmTotal.vio Generated/AsciiGen.vio Ascii/Spec.vio
+Extract/Extract.vos Extract/Extract.vok Extract/Extract.required_vos: Extract/Extract.v Base/GoInt.vos Iso8601/Ext.vos Generated/Iso8601Gen.vos Iso8601/Spec.vos Generated/AsmAsciiGen.vos Ascii/AsmTotal.vos Generated/AsciiGen.vos Ascii/Spec.vos
 Iso8601/Spec.vo Iso8601/Spec.glob Iso8601/Spec.v.beautified Iso8601/Spec.required_vo: Iso8601/Spec.v Base/GoInt.vo Iso8601/Ext.vo Generated/Iso8601Gen.vo
 Iso8601/Spec.vio: Iso8601/Spec.v Base/GoInt.vio Iso8601/Ext.vio Generated/Iso8601Gen.vio
 Iso8601/Spec.vos Iso8601/Spec.vok Iso8601/Spec.required_vos: Iso8601/Spec.v Base/GoInt.vos Iso8601/Ext.vos Generated/Iso8601Gen.vos
@@ -25,3 +25,21 @@ Iso8601/Proofs.vos Iso8601/Proofs.vok Iso8601/Proofs.required_vos: Iso8601/Proof
 Properties/C18.vo Properties/C18.glob Properties/C18.v.beautified Properties/C18.required_vo: Properties/C18.v Base/GoInt.vo Iso8601/Ext.vo Generated/Iso8601Gen.vo Iso8601/Spec.vo Iso8601/Proofs.vo
 Properties/C18.vio: Properties/C18.v Base/GoInt.vio Iso8601/Ext.vio Generated/Iso8601Gen.vio Iso8601/Spec.vio Iso8601/Proofs.vio
 Properties/C18.vos Properties/C18.vok Properties/C18.required_vos: Properties/C18.v Base/GoInt.vos Iso8601/Ext.vos Generated/Iso8601Gen.vos Iso8601/Spec.vos Iso8601/Proofs.vos
+Generated/AsmAsciiGen.vo Generated/AsmAsciiGen.glob Generated/AsmAsciiGen.v.beautified Generated/AsmAsciiGen.required_vo: Generated/AsmAsciiGen.v Base/GoInt.vo
+Generated/AsmAsciiGen.vio: Generated/AsmAsciiGen.v Base/GoInt.vio
+Generated/AsmAsciiGen.vos Generated/AsmAsciiGen.vok Generated/AsmAsciiGen.required_vos: Generated/AsmAsciiGen.v Base/GoInt.vos
+Ascii/AsmTotal.vo Ascii/AsmTotal.glob Ascii/AsmTotal.v.beautified Ascii/AsmTotal.required_vo: Ascii/AsmTotal.v Base/GoInt.vo Generated/AsmAsciiGen.vo
+Ascii/AsmTotal.vio: Ascii/AsmTotal.v Base/GoInt.vio Generated/AsmAsciiGen.vio
+Ascii/AsmTotal.vos Ascii/AsmTotal.vok Ascii/AsmTotal.required_vos: Ascii/AsmTotal.v Base/GoInt.vos Generated/AsmAsciiGen.vos
+Generated/AsciiGen.vo Generated/AsciiGen.glob Generated/AsciiGen.v.beautified Generated/AsciiGen.required_vo: Generated/AsciiGen.v Base/GoInt.vo Generated/AsmAsciiGen.vo Ascii/AsmTotal.vo
+Generated/AsciiGen.vio: Generated/AsciiGen.v Base/GoInt.vio Generated/AsmAsciiGen.vio Ascii/AsmTotal.vio
+Generated/AsciiGen.vos Generated/AsciiGen.vok Generated/AsciiGen.required_vos: Generated/AsciiGen.v Base/GoInt.vos Generated/AsmAsciiGen.vos Ascii/AsmTotal.vos
+Ascii/Spec.vo Ascii/Spec.glob Ascii/Spec.v.beautified Ascii/Spec.required_vo: Ascii/Spec.v Base/GoInt.vo Generated/AsmAsciiGen.vo Ascii/AsmTotal.vo Generated/AsciiGen.vo
+Ascii/Spec.vio: Ascii/Spec.v Base/GoInt.vio Generated/AsmAsciiGen.vio Ascii/AsmTotal.vio Generated/AsciiGen.vio
+Ascii/Spec.vos Ascii/Spec.vok Ascii/Spec.required_vos: Ascii/Spec.v Base/GoInt.vos Generated/AsmAsciiGen.vos Ascii/AsmTotal.vos Generated/AsciiGen.vos
+Ascii/Proofs.vo Ascii/Proofs.glob Ascii/Proofs.v.beautified Ascii/Proofs.required_vo: Ascii/Proofs.v Base/GoInt.vo Base/Lanes.vo Base/LanesProofs.vo Generated/AsmAsciiGen.vo Ascii/AsmTotal.vo Generated/AsciiGen.vo Ascii/Spec.vo
+Ascii/Proofs.vio: Ascii/Proofs.v Base/GoInt.vio Base/Lanes.vio Base/LanesProofs.vio Generated/AsmAsciiGen.vio Ascii/AsmTotal.vio Generated/AsciiGen.vio Ascii/Spec.vio
+Ascii/Proofs.vos Ascii/Proofs.vok Ascii/Proofs.required_vos: Ascii/Proofs.v Base/GoInt.vos Base/Lanes.vos Base/LanesProofs.vos Generated/AsmAsciiGen.vos Ascii/AsmTotal.vos Generated/AsciiGen.vos Ascii/Spec.vos
+Properties/C20.vo Properties/C20.glob Properties/C20.v.beautified Properties/C20.required_vo: Properties/C20.v Base/GoInt.vo Generated/AsmAsciiGen.vo Ascii/AsmTotal.vo Generated/AsciiGen.vo Ascii/Spec.vo Ascii/Proofs.vo
+Properties/C20.vio: Properties/C20.v Base/GoInt.vio Generated/AsmAsciiGen.vio Ascii/AsmTotal.vio Generated/AsciiGen.vio Ascii/Spec.vio Ascii/Proofs.vio
+Properties/C20.vos Properties/C20.vok Properties/C20.required_vos: Properties/C20.v Base/GoInt.vos Generated/AsmAsciiGen.vos Ascii/AsmTotal.vos Generated/AsciiGen.vos Ascii/Spec.vos Ascii/Proofs.vos
